@@ -63,6 +63,13 @@ def use_repo():
     import bempp_cl.api as api
 
     api.enable_console_logging  # touch
+    # the meshes of the universes are tiny: many threads only add barrier latency (badly so on a loaded machine)
+    try:
+        import numba
+
+        numba.set_num_threads(max(1, min(int(os.environ.get("VERIF_THREADS", "4")), numba.config.NUMBA_NUM_THREADS)))
+    except Exception:  # pragma: no cover
+        pass
     return api
 
 
